@@ -10,24 +10,8 @@ From TV Require Import Lib.Obs Lib.C21_Utf8 Lib.C21_Pct C31.Model C31.Spec
 Import ListNotations.
 Local Open Scope N_scope.
 
-Inductive seg := SLit (c : N) (esc : bool) | SGrp (body : str) (items : list item).
-
-Definition lit_item (c : N) : item := mkItem (CChar c) 1 (Some 1%nat) true.
-Definition seg_text (sg : seg) : str :=
-  match sg with
-  | SLit c false => [c]
-  | SLit c true => [92; c]
-  | SGrp b _ => 40 :: b ++ [41]
-  end.
-Definition pat_text (segs : list seg) : str := flat_map seg_text segs.
-Definition seg_piece (sg : seg) : piece :=
-  match sg with SLit c _ => PIt (lit_item c) | SGrp _ its => PGrp its end.
 Definition seg_toks (sg : seg) : list token :=
   match sg with SLit c _ => [TItem (lit_item c)] | SGrp _ its => TOpen :: map TItem its ++ [TClose] end.
-
-(* characters with a meaning in `re` syntax *)
-Definition is_special (c : N) : bool :=
-  existsb (N.eqb c) [92; 46; 94; 36; 42; 43; 63; 123; 125; 91; 93; 124; 40; 41].
 
 (* plain literal: not special; escaped literal: not alphanumeric (and not a
    parenthesis, which _find_groups cannot cope with); group body: lexes to items
@@ -425,7 +409,7 @@ Theorem compile_plain_pattern segs :
   Forall seg_ok segs ->
   exists pm,
     compile_path (pat_text segs) = Some pm /\
-    rx_pieces (pm_rx pm) = map seg_piece segs /\
+    rx_pieces (pm_rx pm) = map seg_piece segs /\ pm_whole pm = true /\
     forall args u, spec_url (map seg_piece segs) args = Some u -> pm_reverse pm args = RvOk u.
 Proof.
   intros Hok. unfold compile_path, add_dollar.
@@ -440,7 +424,7 @@ Proof.
     destruct (ends_dollar_last segs Hok Ed) as [segs' Hs].
     unfold rx_parse. rewrite (head_not_caret' segs Hok), (lexf_segs segs Hok).
     rewrite <- (app_nil_r (flat_map seg_toks segs)), build_segs. cbn [build]. rewrite app_nil_r, rev_involutive.
-    eexists. split; [reflexivity|]. split; [reflexivity|]. apply Hrev; [reflexivity|]. cbn [pm_tpl rx_pieces].
+    eexists. split; [reflexivity|]. split; [reflexivity|]. split; [reflexivity|]. apply Hrev; [reflexivity|]. cbn [pm_tpl rx_pieces].
     apply find_groups_text; [exact Hok|]. rewrite (head_not_caret' segs Hok).
     unfold strip_last_dollar. rewrite Hs at 1. rewrite pat_text_snoc, rev_app_distr. simpl.
     assert (Hs' : Forall seg_ok segs') by (rewrite Hs in Hok; apply Forall_app in Hok; apply Hok).
@@ -452,7 +436,7 @@ Proof.
     rewrite (head_not_caret segs [] Hok).
     rewrite (lexf_app (pat_text segs) [36] _ [TDollar] (lexf_segs segs Hok) eq_refl).
     rewrite build_segs. cbn [build]. rewrite app_nil_r, rev_involutive.
-    eexists. split; [reflexivity|]. split; [reflexivity|]. apply Hrev; [reflexivity|]. cbn [pm_tpl rx_pieces].
+    eexists. split; [reflexivity|]. split; [reflexivity|]. split; [reflexivity|]. apply Hrev; [reflexivity|]. cbn [pm_tpl rx_pieces].
     apply find_groups_text; [exact Hok|]. rewrite (head_not_caret segs [] Hok).
     unfold strip_last_dollar. rewrite rev_app_distr. simpl.
     rewrite (even_trailing_backslashes segs Hok), rev_involutive. reflexivity.
@@ -468,7 +452,7 @@ Theorem plain_pattern_roundtrip segs args u :
   exists pm, compile_path (pat_text segs) = Some pm /\
              pm_reverse pm args = RvOk u /\ pm_match pm u = MHit args.
 Proof.
-  intros Hok Hu Hb Hr Huniq. destruct (compile_plain_pattern segs Hok) as (pm & Hc & Hp & Hrev).
+  intros Hok Hu Hb Hr Huniq. destruct (compile_plain_pattern segs Hok) as (pm & Hc & Hp & Hw & Hrev).
   exists pm. split; [exact Hc|]. split; [apply Hrev; exact Hu|].
   apply reverse_match_roundtrip; rewrite ?Hp; assumption.
 Qed.
